@@ -8,7 +8,8 @@ from ..progprop import ProgramProperty
 
 class C01(ProgramProperty):
     id = "C01"
-    theorems = ["C01_placeholder"]
+    theorems = ["C01_parse_none", "C01_parse_some", "C01_parse_longest", "C01_compress", "C01_isUri",
+                "C01_unique_answer", "C01_perm"]
     lean_modules = ["CuriesVerif.Properties.C01"]
     rule = ("one case = one overlap-lattice record collection (nested / sibling / identical-up-to-one-symbol URI "
             "prefixes, synonyms nested in other records' prefixes, '' in ~12%, delimiters : / :: _ | -:) built three "
@@ -54,7 +55,7 @@ class C01(ProgramProperty):
             tags.append(f"matches={min(n, 4)}")
         return {"steps": steps, "nontrivial": multi, "tags": tags}
 
-    def extra_fails(self, case, impl, resp):
+    def laws(self, case, impl):
         # order independence: the three builds must answer identically (C01's last sentence)
         steps = case["steps"]
         by = {}
